@@ -33,7 +33,14 @@ class C13(core.Check):
             'holding the whole vocabulary, embedding width, channels); sentinel look-alike category / token / column names, '
             'edge magnitudes (-1.0, 0.5, -0.0, 2^24, -2^31) and float64-only numbers; float32 numerical / int32 categorical '
             'blocks; earlier calls on the same encoder object (eval / training-mode forward, mode flips, reset_parameters); '
-            'the tensor returned by the first call is re-inspected after all later calls (no shared output buffer).')
+            'the tensor returned by the first call is re-inspected after all later calls (no shared output buffer). '
+            'Third round (labels cfg:merged-embedding:* / cfg:frame-from-transform:* / names:* / ragged:* / alias:*): as in C12, '
+            '~20% of the cases have text_embedded / image_embedded stub columns of other widths merged behind the plain embedding '
+            'columns, ~20% take the frame (and the evaluation frame) from a transform (re-ordered column lists of every stype, '
+            'CatToNumTransform, MutualInformationSort) so that the statistics have to be looked up by NAME, ~25% place empty '
+            'multicategorical cells in the first / middle / last rows or everywhere (training and evaluation table), ~25% '
+            'overwrite the returned tensor in place (zero_, add_, fill_(nan)) and call again: the input features and the next '
+            'result must be what they were.')
     partial_notes = (
         '"encoding never modifies the tensors it is given" is checked on the real objects (snapshot of every feature '
         'tensor / ragged storage before and after the call); the functional Lean model cannot express aliasing',
@@ -65,6 +72,16 @@ class C13(core.Check):
                          for _ in range(rng.choice([1, 1, 2]))]
         if r() < 0.15:
             o['block_dtype'] = {s: d for s, d in (('numerical', 'f32'), ('categorical', 'i32')) if r() < 0.7}
+        # third hardening round (see C12.gen_stress): column lists that are not sorted (merged text / image children,
+        # frames produced by transforms), empty ragged cells in chosen rows, callers editing the returned tensor in place
+        if r() < 0.2:
+            o['children'] = True
+        if r() < 0.2:
+            o['layout'] = rng.choice(['permuted', 'permuted', 'permuted', 'cat_to_num', 'cat_to_num', 'mi_sort'])
+        if r() < 0.25:
+            o['empty'] = rng.choice(G.EMPTY_PATTERNS)
+        if r() < 0.25:
+            o['mutate'] = [rng.choice(['x:zero', 'x:add', 'x:nan']) for _ in range(rng.choice([1, 2]))]
         if r() < self.SCALE_SHARE.get(lvl, 0.05):
             def size(cap):
                 xs = [x for x in stress.ladder(lvl) if x <= cap]
@@ -106,7 +123,7 @@ class C13(core.Check):
         frames = [('train', tf)]
         if 'eval_cols' in case:
             frames.append(('eval', G.eval_frame(case, ds)))
-        out, reqs, rel = {'groups': []}, [], {}
+        out, reqs, rel = {'groups': [], 'layout': G.names_layout(tf)}, [], {}
         rng = random.Random(case['oseed'])
         for fname, frame in frames:
             for s in G.canonical_stypes(frame):
@@ -127,6 +144,8 @@ class C13(core.Check):
                 out['groups'].append(res)
                 reqs.append({'cmd': 'enc', 'enc': G.enc_json(ds, frame, wise, case, s), 'feat': f, 'rows': r, 'cols': c,
                              'names': len(names), 'cells': True})
+                if self._viol[key] is None and x is not None and case.get('mutate'):
+                    self._viol[key] = self.oracle_mutation(case, m, e, s, feat, names, x_first, snap)
                 if self._viol[key] is None:
                     if self.snapshot(feat) != snap:
                         self._viol[key] = core.Violation(f'C13/input-modified/{e["cls"]}', f'{e["cls"]} (na={e["na"]}) modified '
@@ -142,6 +161,30 @@ class C13(core.Check):
         self._req[key] = reqs
         out['relations'] = rel
         return out
+
+    def oracle_mutation(self, case, m, e, s, feat, names, x_first, snap):
+        """the returned tensor belongs to the caller: overwriting it in place changes neither the features it was
+        computed from nor what the next call returns"""
+        torch = G.T()['torch']
+        y = m(feat, names)
+        with torch.no_grad():
+            for op in case['mutate']:
+                if op == 'x:zero':
+                    y.detach().zero_()
+                elif op == 'x:add':
+                    y.detach().add_(1.5)
+                else:
+                    y.detach().fill_(float('nan'))
+        if self.snapshot(feat) != snap:
+            return core.Violation(f'C13/input-modified/{e["cls"]}', f'{e["cls"]} (na={e["na"]}): overwriting the returned '
+                                  f'tensor in place ({case["mutate"]}) changed the {s} features that were encoded (the output '
+                                  'shares memory with the input)', case, 'unchanged input', 'changed')
+        z = m(feat, names).detach()
+        if not torch.equal(torch.nan_to_num(z), torch.nan_to_num(x_first)):
+            return core.Violation(f'C13/output-overwritten/{e["cls"]}', f'{e["cls"]}: after the caller overwrote the returned '
+                                  f'tensor in place ({case["mutate"]}) the next call on the same input returns something else',
+                                  case, 'the same embedding', 'changed')
+        return None
 
     @staticmethod
     def snapshot(feat):
@@ -440,7 +483,7 @@ class C13(core.Check):
                     labs.append('values:sentinel-like-categories')
                 if c['stype'] == 'multicategorical' and any(v and v.count(',') >= 16 for v in c['values']):
                     labs.append('scale:cell-length:17+')
-            if c['stype'] == 'embedding' and len(c['values'][0]) >= 17:
+            if c['stype'] == 'embedding' and not c.get('via') and len(c['values'][0]) >= 17:
                 labs.append(f"scale:embedding-width:{bucket(len(c['values'][0]))}")
             if c['stype'] == 'numerical':
                 if any(isinstance(v, float) and v in G.F64_VALUES for v in c['values']):
@@ -454,6 +497,10 @@ class C13(core.Check):
                 labs.append(f'scale:columns:{st}:{bucket(k)}')
         for h in case.get('hist', []):
             labs.append(f'hist:{h}')
+        labs += G.family_labels(case, r)
+        for c in case.get('eval_cols', []):
+            if c['stype'] == 'multicategorical' and c['values'] and c['values'][-1] == '':
+                labs.append('ragged:empty-cell:last-row:eval')
         for st, d in (case.get('block_dtype') or {}).items():
             if st in case['enc']:
                 labs.append(f'dtype:{st}:{d}')
